@@ -148,7 +148,8 @@ mod __verif_native_bin {
         for s in cells { for d in [0usize, 4, 8, 12, 16] { ptr_cfgs.push(vec![(s, d)]); } }
         for p in [[(0usize, 8usize), (8, 0)], [(4, 12), (12, 4)], [(0, 4), (4, 4)], [(8, 16), (12, 16)], [(0, 12), (8, 12)]] { ptr_cfgs.push(p.to_vec()); }
         let lab_cfgs: Vec<Vec<(usize, &str)>> = vec![vec![], vec![(0, "L0")], vec![(4, "L4")], vec![(8, "L8")], vec![(12, "LC")], vec![(16, "END")],
-            vec![(4, "A"), (8, "B")], vec![(8, "X"), (8, "Y")], vec![(4, "same"), (12, "same")], vec![(0, "b"), (4, "a"), (8, "c")]];
+            vec![(4, "A"), (8, "B")], vec![(8, "X"), (8, "Y")], vec![(4, "same"), (12, "same")], vec![(0, "b"), (4, "a"), (8, "c")],
+            vec![(8, "Zeta"), (8, "Alpha")], vec![(0, "Alpha"), (0, "Zulu"), (4, "Mike")], vec![(16, "Zed"), (16, "Abe"), (0, "Mid")]];
         let cs_cfgs: Vec<Vec<(usize, &str)>> = vec![vec![], vec![(0, "c0")], vec![(4, "c4")], vec![(8, "c8")], vec![(12, "cC")], vec![(4, "dup"), (12, "dup")], vec![(0, "p"), (8, "q")]];
         let mut v = Vec::new();
         for big in [false, true] {
@@ -222,7 +223,7 @@ mod __verif_native_bin {
         for (wi, w) in ws.iter().enumerate() {
             let show = |extra: &str| format!("world #{} {:?} {}", wi, w, extra);
             // ---------------- C01: serialize -> parse, image well-formed (reference reader)
-            let a = w.build();
+            let a = match no_panic(|| w.build()) { Ok(a) => a, Err(p) => { check(false, "C01.content_is_accepted_by_the_accessors", || show(&format!("building it through the public API panicked: {}", p))); continue; } };
             match no_panic(|| a.serialize()) {
                 Err(p) => { check(false, "C01.serialize_never_panics", || show(&format!("panic {}", p))); }
                 Ok(Err(e)) => { check(false, "C01.serialize_succeeds", || show(&format!("{:?}", e))); }
